@@ -113,7 +113,7 @@ def stateful_sweep(run, pid, prefixes, escalate):
             fails += 1
             run.findings.append(Finding(f"{pid}.py.native_sequence", "stateful", f"one filter instance, {'linear' if linear else 'generic'} model{' with real/positive symbols' if assume else ''}{' with |v| terms on symbols without assumptions' if magnitude else ''}, editing threshold {k_edit}{f', prior and sensor noise scaled by {scale}' if scale else ''}: {mine[0]}", {"language": "python", "inputs": {"sequence": True, "seed": run.seed, "linear": linear, "k_edit": k_edit, "assumptions": assume, "scale": scale, "magnitude": magnitude}, "model_definition": sc.describe(), "oracle_verdict": mine[:6]}, True))
             break
-    run.bounded.append({"what": "stateful native sequence on ONE filter instance (two sensors of different reading dimension): Jacobians at three points with different dt, predictions at dt in {dt, 0, dt/2, 2^-40}, a chain of three predictions fed back into each other (inputs and earlier outputs must not change), six alternating near/far sensor updates; each result against the exact oracle at its own inputs", "bound": f"{len(variants)} sequences (linear and generic models)", "failures": fails, "counted_as_proved": False})
+    run.bounded.append({"what": "stateful native sequence on ONE filter instance (two sensors of different reading dimension): Jacobians at three points with different dt, predictions at dt in {dt, 0, dt/2, 2^-40, -dt, -dt/4}, a chain of three predictions fed back into each other (inputs and earlier outputs must not change), six alternating near/far sensor updates; each result against the exact oracle at its own inputs", "bound": f"{len(variants)} sequences (linear and generic models)", "failures": fails, "counted_as_proved": False})
     return fails
 
 
